@@ -146,7 +146,11 @@ def prog_flat(rng, **kw):
     prog = base_prog(rng, **kw)
     names = prog["cols"]
     declared = rng.random() < 0.5
-    prog["tree"] = {"name": "r", "algos": rebalance_stack(rng, names, prog), "children": list(names) if declared else []}
+    kids = list(names) if declared else []
+    if declared and rng.random() < 0.4:
+        # contracts with a multiplier (futures): Security objects built up front
+        kids = [{"sec": n_, "kind": "sec", "mult": rng.choice([1, 2, 5, 10])} for n_ in names]
+    prog["tree"] = {"name": "r", "algos": rebalance_stack(rng, names, prog), "children": kids}
     if rng.random() < 0.3:
         prog["tree"]["algos"].insert(0, ["CapitalFlow", {"amount": rng.choice([1000, -500, 250])}])
     if rng.random() < 0.25:
@@ -247,6 +251,9 @@ def prog_flows(rng, **kw):
         pre.append(["run_always", {"algo": f}] if gate is None or rng.random() < 0.5 else f)
     prog["tree"] = {"name": "r", "algos": pre + st, "children": list(names) if rng.random() < 0.5 else []}
     prog["family"] = "flows"
+    if rng.random() < 0.3:
+        # a flow booked with update=False by a user algo, closed by the engine's own update
+        prog["tree"]["algos"].append(["DeferredFlow", {"amount": rng.choice([1000, 500, -250]), "flow": rng.random() < 0.8}])
     return prog
 
 
